@@ -7,6 +7,16 @@ from . import common
 
 
 def dispatch(prop, tier, replay):
+    if replay and prop not in ("C01", "C02", "C03", "C10", "C11", "C12", "C13", "C14", "C15"):
+        # the non-codec checks are cheap and self-contained: a replay shows the recorded case and
+        # re-runs the check, which reports the violation again if it is still there
+        try:
+            import json
+            doc = json.load(open(replay))
+            print("recorded case: sig=%s occurrences=%s" % (json.dumps(doc.get("sig")), doc.get("occurrences")))
+        except Exception as e:  # noqa: BLE001
+            print("cannot read replay file %s: %s" % (replay, e))
+        replay = None
     if prop in ("C01", "C02", "C03", "C10", "C11", "C12", "C13", "C14", "C15"):
         from . import checks_codec
         if replay:
